@@ -1406,6 +1406,51 @@ pub fn run_c17(a: &Args, rep: &mut Report) {
             }
         }
     }
+    // ---- many pushes on ONE builder object: the emitted program must be the concatenation of the
+    // instructions' encodings, whatever the count (inline buffers, growth thresholds, counters) ----
+    if !cfg!(miri) {
+        let lens: &[usize] = if a.tier == "quick" { &[2, 6, 31, 32, 33, 127, 128, 255, 256, 257, 300, 511, 512, 513, 1000, 4096, 4097, 65_536, 65_537, 70_000] } else { &[2, 3, 6, 15, 16, 17, 31, 32, 33, 63, 64, 65, 127, 128, 129, 255, 256, 257, 300, 511, 512, 513, 1000, 1023, 1024, 1025, 4095, 4096, 4097, 32_768, 65_535, 65_536, 65_537, 70_000, 262_145, 1_000_000] };
+        for (li, n) in lens.iter().enumerate() {
+            if li as u64 % a.nshards != a.shard % a.nshards {
+                continue;
+            }
+            for from_default in [false, true] {
+                let mut want: Vec<u8> = Vec::with_capacity(n * 8);
+                let fields: Vec<(u8, u8, i16, i32, u8)> = (0..*n).map(|_| (rng.below(16) as u8, rng.below(16) as u8, rng.interesting_i16().0, rng.interesting_i32().0, rng.below(7) as u8)).collect();
+                let built = sys::catch(|| {
+                    let mut code = if from_default { BpfCode::default() } else { BpfCode::new() };
+                    for (dst, src, off, imm, which) in &fields {
+                        let (dst, src, off, imm) = (*dst, *src, *off, *imm);
+                        match which {
+                            0 => { code.add(Source::Imm, Arch::X64).set_dst(dst).set_src(src).set_off(off).set_imm(imm).push(); }
+                            1 => { code.mov(Source::Reg, Arch::X32).set_dst(dst).set_src(src).set_off(off).set_imm(imm).push(); }
+                            2 => { code.load_x(MemSize::Word).set_dst(dst).set_src(src).set_off(off).set_imm(imm).push(); }
+                            3 => { code.store(MemSize::Byte).set_dst(dst).set_src(src).set_off(off).set_imm(imm).push(); }
+                            4 => { code.jump_conditional(Cond::Equals, Source::Imm).set_dst(dst).set_src(src).set_off(off).set_imm(imm).push(); }
+                            5 => { code.jump_unconditional().set_dst(dst).set_src(src).set_off(off).set_imm(imm).push(); }
+                            _ => { code.exit().set_dst(dst).set_src(src).set_off(off).set_imm(imm).push(); }
+                        }
+                    }
+                    code.into_bytes().to_vec()
+                });
+                for (dst, src, off, imm, which) in &fields {
+                    let opc = match which { 0 => 0x07u8, 1 => 0xbc, 2 => 0x61, 3 => 0x72, 4 => 0x15, 5 => JA, _ => EXIT };
+                    want.extend_from_slice(&Insn::new(opc, *dst, *src, *off, *imm).bytes());
+                }
+                rep.case(Some(fnv(&want) ^ *n as u64));
+                rep.set("builder_program_lengths", format!("{n}"));
+                rep.count("builder_programs_of_many_pushes");
+                match built {
+                    Err(p) => rep.violation(&format!("C17:builder-panic:many-pushes:{}", sys::panic_site(&p)), format!("the instruction builder panicked while {n} instructions were pushed on one BpfCode: {p}"), json!({"kind": "builder-program", "pushes": n, "default": from_default})),
+                    Ok(got) if got != want => {
+                        let first = got.chunks(8).zip(want.chunks(8)).position(|(x, y)| x != y);
+                        rep.violation("C17:builder-bytes:many-pushes", format!("{n} pushes on one BpfCode: {} bytes emitted, {} expected; first differing slot {:?}", got.len(), want.len(), first), json!({"kind": "builder-program", "pushes": n, "default": from_default}));
+                    }
+                    Ok(_) => {}
+                }
+            }
+        }
+    }
 }
 
 /// A text for the std/no_std transcript corpus: valid lines, boundary operands, hostile numerals.
